@@ -77,7 +77,8 @@ def install() -> None:
 
         setattr(cls, name, w)
 
-    wrap("report_fatal_error", before=lambda sim, c, err: sim.on_fatal(c, err))
+    wrap("report_fatal_error", before=lambda sim, c, err: sim.on_fatal(c, err),
+         after=lambda sim, c, r, raised: sim.on_fatal_done(c, raised))
     wrap("send_messages", before=lambda sim, c, msgs: sim.on_send_enter(c, msgs),
          after=lambda sim, c, r, raised: sim.on_send_exit(c, r, raised))
     wrap("_add_message_callback_without_remove", before=lambda sim, c, cb, types: sim.on_subscribe(c, cb, types))
